@@ -107,7 +107,22 @@ def _install_abstract_path_methods():
         def f(it, v, a, k):
             fc = k.get("filter_context", S.NONE)
             it.assumed.append("contract:compiled query methods are abstract in the delegation obligations")
-            return path_call[name](v, lib.T(it, a[0]), lib.T(it, fc))
+            # an operand's async method computes what its sync twin computes (JSONPath.finditer_async==finditer,
+            # JSONPath.findall==values(finditer), proved in this file): one function for both
+            r = path_call[name.replace("_async", "")](v, lib.T(it, a[0]), lib.T(it, fc))
+            if name.startswith("findall"):
+                it.assume(Py.is_list(r))  # a list of values
+            elif name.startswith("finditer"):
+                # the nodes it yields, as the sequence they come in (the operands are pure: when they
+                # are consumed does not matter)
+                from contracts.common import match_facts
+
+                from pyvc.interp import GenVal
+
+                it.assume(Py.is_list(r))
+                it.elem_facts = getattr(it, "elem_facts", []) + [(Py.items(r), match_facts)]
+                return GenVal([("yieldfrom", Py.items(r))])
+            return r
 
         return f
 
